@@ -213,7 +213,31 @@ def never_active(e):
     return eff_end(e) == (e.get_begin() or F(0))
 
 
-def compare_docs(d1, d2, diffs, times, groups, values, exact=True):
+def shorter_than(e, unit):
+    """the element lasts less than one unit of the written syntax: its written begin and end may coincide, in which case the reader omits it"""
+    import ttconv.model as m
+    if isinstance(e, (m.Text, m.Br, m.Region, m.Body)): return False
+    en = eff_end(e)
+    return en is not None and en - (e.get_begin() or F(0)) < unit
+
+
+def align(c1, c2, unit):
+    """pair the children of the original with those of the re-read element, skipping only originals shorter than one unit"""
+    if len(c1) == len(c2): return list(zip(c1, c2))
+    if len(c1) < len(c2): return None
+    def go(i, j):
+        if j == len(c2):
+            return [] if all(shorter_than(c, unit) for c in c1[i:]) else None
+        if i == len(c1): return None
+        if type(c1[i]) is type(c2[j]):
+            r = go(i + 1, j + 1)
+            if r is not None: return [(c1[i], c2[j])] + r
+        if shorter_than(c1[i], unit): return go(i + 1, j)
+        return None
+    return go(0, 0)
+
+
+def compare_docs(d1, d2, diffs, times, groups, values, exact=True, unit=F(0)):
     """structural comparison of the original d1 and the re-read d2; appends (kind, detail) to diffs, (t, t') pairs to times,
     sibling groups to groups, (atoms, atoms) to values"""
     import ttconv.model as m, ttconv.style_properties as s
@@ -257,10 +281,11 @@ def compare_docs(d1, d2, diffs, times, groups, values, exact=True):
         if e1.get_lang() != e2.get_lang(): diffs.append(("lang", e1.get_lang(), e2.get_lang()))
         sty(e1, e2, e1)
         c1 = [c for c in e1 if not never_active(c)]; c2 = list(e2)
-        if len(c1) != len(c2):
+        pairs = list(zip(c1, c2)) if len(c1) == len(c2) else (None if exact else align(c1, c2, unit))
+        if pairs is None:
             diffs.append(("children", [type(c).__name__ for c in c1], [type(c).__name__ for c in c2])); return
         g = []
-        for a, b in zip(c1, c2):
+        for a, b in pairs:
             if not isinstance(a, (m.Text, m.Br)) and type(a) is type(b):
                 ba = a.get_begin() or F(0); bb = b.get_begin() or F(0); g.append((ba, bb))
             el(a, b)
@@ -524,7 +549,7 @@ def main():
         lg.removeHandler(h)
         logs = [x for x in h.records if x[0] in ("ERROR", "WARNING", "CRITICAL")]
         diffs = []; times = []; groups = []; values = []
-        compare_docs(doc, doc2, diffs, times, groups, values, exact)
+        compare_docs(doc, doc2, diffs, times, groups, values, exact, unit)
         if doc.get_px_resolution() != doc2.get_px_resolution() and uses_px(doc): diffs.append(("px-resolution", doc.get_px_resolution(), doc2.get_px_resolution()))
         nrt += 1
         # differences and log records must be explained by a finding whose trigger the document meets
